@@ -25,6 +25,7 @@ type c16Req struct {
 	Near  bool   `json:"near"`  // not stalled itself but served by the stalling node (queued behind the stall)
 	Moved bool   `json:"moved"` // (stalled requests) the stalling node first answers -MOVED to node 1, which then stalls
 	Late  bool   `json:"late"`  // (moved requests) the -MOVED itself comes only after the timeout has expired
+	Both  bool   `json:"both,omitempty"` // (stalled MGETs that are not moved) both fragments are stalled, not just one
 }
 
 type c16Case struct {
@@ -32,6 +33,9 @@ type c16Case struct {
 	Reqs      []c16Req `json:"reqs"`
 	LateMs    int      `json:"late_ms"`      // how long after the last timeout error the stalled replies are finally sent
 	Kill      bool     `json:"kill_instead"` // the stalling node never answers: its connections are dropped while a follow-up to a healthy node is in flight
+	// Again: once the pipeline is answered, a second one follows on the same connection - a request that stalls
+	// too and a healthy one behind it: again exactly one timeout error, then the healthy reply
+	Again bool `json:"second_round,omitempty"`
 }
 
 const (
@@ -60,6 +64,17 @@ func c16Enum() []c16Case {
 			}
 		}
 	}
+	// split requests with both fragments stalled, followed by a second pipeline on the same connection
+	for _, to := range []int{100, 300} {
+		for _, lead := range []int{0, 1, 2} {
+			c := c16Case{TimeoutMs: to, LateMs: 50, Again: true}
+			for i := 0; i < lead; i++ {
+				c.Reqs = append(c.Reqs, c16Req{Kind: "get"})
+			}
+			c.Reqs = append(c.Reqs, c16Req{Kind: "mget", Stall: true, Both: true})
+			out = append(out, c)
+		}
+	}
 	return out
 }
 
@@ -75,6 +90,7 @@ func c16Gen(t *rapid.T) c16Case {
 			r.Stall = true
 			r.Moved = rapid.IntRange(0, 2).Draw(t, "moved") == 0
 			r.Late = r.Moved && rapid.Bool().Draw(t, "late")
+			r.Both = r.Kind == "mget" && !r.Moved && rapid.Bool().Draw(t, "both")
 			anyStall = true
 		case 2:
 			r.Near = true
@@ -84,6 +100,7 @@ func c16Gen(t *rapid.T) c16Case {
 	if !anyStall {
 		c.Reqs[rapid.IntRange(0, n-1).Draw(t, "forcestall")].Stall = true
 	}
+	c.Again = rapid.Bool().Draw(t, "again")
 	return c
 }
 
@@ -125,6 +142,10 @@ func c16Build2(c *c16Case) ([]Req, map[string]bool, map[string]bool) {
 		if r.Kind == "mget" {
 			// a split request: one fragment on the (possibly stalling) node, one elsewhere
 			k2 := keyFor(healthy[(i+1)%2], 0, i, 1)
+			if r.Stall && r.Both && !r.Moved {
+				k2 = keyFor(c16SlotStall+1, 0, i, 1) // a second slot of the stalling node: a fragment of its own
+				stalled[string(k2)] = true
+			}
 			reqs = append(reqs, Req{Name: Bin("mget"), Args: []Bin{k2, k}})
 		} else {
 			reqs = append(reqs, Req{Name: Bin("get"), Args: []Bin{k}})
@@ -146,6 +167,10 @@ func c16Run(f *Fixture, c *c16Case) []Discrepancy {
 	reqs, stalled, moved := c16Build2(c)
 	late := c16Late
 	gates := &gateSet{}
+	againStall, againOK := keyFor(c16SlotStall, 0, 950, 0), keyFor(c16SlotA, 0, 951, 0)
+	if c.Again {
+		stalled[string(againStall)] = true
+	}
 	f.Cluster.ResetLog()
 	f.Cluster.SetHandler(func(req *fakecluster.Request) fakecluster.Action {
 		a := fakecluster.Action{Reply: fakecluster.EchoReply(req)}
@@ -201,6 +226,9 @@ func c16Run(f *Fixture, c *c16Case) []Discrepancy {
 		exp := expectFor(&reqs[i], pi, rc)
 		switch {
 		case c.Reqs[i].Stall:
+			if early := r.Time.Sub(sent); isErrorReply(r.Raw) && early < time.Duration(c.TimeoutMs)*time.Millisecond/2 {
+				ds = append(ds, disc("C16/timeout-error-before-the-timeout", "request %d of %d is stalled by its backend and was answered %s only %d ms after it was sent; the timeout is %d ms", i+1, len(reqs), q(r.Raw), early.Milliseconds(), c.TimeoutMs))
+			}
 			if !isErrorReply(r.Raw) {
 				ds = append(ds, disc("C16/stalled-request-not-an-error", "request %d of %d was stalled by its backend; reply %d is %s instead of a timeout error", i+1, len(reqs), i+1, q(r.Raw)))
 			}
@@ -226,6 +254,33 @@ func c16Run(f *Fixture, c *c16Case) []Discrepancy {
 	}
 	if len(st.Replies) > len(reqs) {
 		return []Discrepancy{disc("C16/extra-replies", "%d replies for %d requests (stalled positions %v): extra %s", len(st.Replies), len(reqs), c16Stalled(c), q(st.Replies[len(reqs)].Raw))}
+	}
+	base := len(reqs)
+	if c.Again {
+		t0 := time.Now()
+		cl.Write(append(refmodel.EncodeCmdS("get", string(againStall)), refmodel.EncodeCmdS("get", string(againOK))...))
+		waitClients(f, []*rclient.Client{cl}, []int{base + 2}, limit)
+		st = cl.Snapshot()
+		if ds = f.checkAlive("C16", nil); len(ds) > 0 {
+			return ds
+		}
+		if len(st.Replies) < base+2 {
+			what := "the connection is still open"
+			if st.EOF {
+				what = "the proxy closed the connection"
+			}
+			return []Discrepancy{disc("C16/second-round-missing-replies", "timeout %d ms: the first pipeline (stalled positions %v) was answered; of a second one on the same connection - a request whose backend stalls, then a healthy one - only %d of 2 replies arrived within %.1f s and %s", c.TimeoutMs, c16Stalled(c), len(st.Replies)-base, time.Since(t0).Seconds(), what)}
+		}
+		if r := st.Replies[base].Raw; !isErrorReply(r) {
+			return []Discrepancy{disc("C16/stalled-request-not-an-error", "second pipeline: the stalled request was answered %s instead of a timeout error", q(r))}
+		}
+		if early := st.Replies[base].Time.Sub(t0); early < time.Duration(c.TimeoutMs)*time.Millisecond/2 {
+			return []Discrepancy{disc("C16/timeout-error-before-the-timeout", "second pipeline (after the first one, stalled positions %v, was answered): the request whose backend stalls was answered %s only %d ms after it was sent; the timeout is %d ms", c16Stalled(c), q(st.Replies[base].Raw), early.Milliseconds(), c.TimeoutMs)}
+		}
+		if r, want := st.Replies[base+1].Raw, refmodel.Bulk(fakecluster.EchoValue("get", string(againOK))); !bytes.Equal(r, want) {
+			return []Discrepancy{disc("C16/neighbour-disturbed", "second pipeline: the request behind the stalled one was answered by a healthy backend, yet its reply is %s; expected %s", q(r), q(want))}
+		}
+		base += 2
 	}
 	fk1 := keyFor(c16SlotA, 0, 900, 0)
 	fk2 := keyFor(c16SlotStall, 0, 901, 0)
@@ -260,22 +315,22 @@ func c16Run(f *Fixture, c *c16Case) []Discrepancy {
 		// and one through the node that stalled is answered too
 		cl.Write(append(refmodel.EncodeCmdS("get", string(fk1)), refmodel.EncodeCmdS("get", string(fk2))...))
 	}
-	waitClients(f, []*rclient.Client{cl}, []int{len(reqs) + 2}, 5*time.Second)
+	waitClients(f, []*rclient.Client{cl}, []int{base + 2}, 5*time.Second)
 	time.Sleep(30 * time.Millisecond)
 	st = cl.Snapshot()
-	if len(st.Replies) < len(reqs)+2 {
-		return []Discrepancy{disc("C16/connection-unusable-after-timeout", "after the timeout errors the follow-up requests got %d of 2 replies (eof=%v)", len(st.Replies)-len(reqs), st.EOF)}
+	if len(st.Replies) < base+2 {
+		return []Discrepancy{disc("C16/connection-unusable-after-timeout", "after the timeout errors the follow-up requests got %d of 2 replies (eof=%v)", len(st.Replies)-base, st.EOF)}
 	}
 	want1 := refmodel.Bulk(fakecluster.EchoValue("get", string(fk1)))
 	want2 := refmodel.Bulk(fakecluster.EchoValue("get", string(fk2)))
-	if got := st.Replies[len(reqs)].Raw; !bytes.Equal(got, want1) {
+	if got := st.Replies[base].Raw; !bytes.Equal(got, want1) {
 		ds = append(ds, disc("C16/late-reply-delivered", "the follow-up request through a healthy node was answered %s instead of %s: a late reply or a stray error was delivered in its place", q(got), q(want1)))
 	}
-	if got := st.Replies[len(reqs)+1].Raw; !bytes.Equal(got, want2) && !isErrorReply(got) {
+	if got := st.Replies[base+1].Raw; !bytes.Equal(got, want2) && !isErrorReply(got) {
 		ds = append(ds, disc("C16/late-reply-delivered", "the follow-up request through the node that stalled was answered %s instead of %s", q(got), q(want2)))
 	}
-	if len(st.Replies) > len(reqs)+2 || len(st.Pending) > 0 {
-		ds = append(ds, disc("C16/extra-replies", "stray data after the follow-up replies: %d replies too many, pending %s", len(st.Replies)-len(reqs)-2, q(st.Pending)))
+	if len(st.Replies) > base+2 || len(st.Pending) > 0 {
+		ds = append(ds, disc("C16/extra-replies", "stray data after the follow-up replies: %d replies too many, pending %s", len(st.Replies)-base-2, q(st.Pending)))
 	}
 	return ds
 }
@@ -312,9 +367,15 @@ func c16Classify(c *c16Case) (bool, []string) {
 		if r.Late {
 			cls = append(cls, "redirection-arrives-after-the-timeout")
 		}
+		if r.Both && r.Kind == "mget" && !r.Moved {
+			cls = append(cls, "both-fragments-of-a-split-request-stalled")
+		}
 	}
 	if c.Kill {
 		cls = append(cls, "stalled-connection-dropped-with-a-follow-up-in-flight")
+	}
+	if c.Again {
+		cls = append(cls, "second-pipeline-with-another-stall")
 	}
 	cls = append(cls, fmt.Sprintf("timeout-%d", c.TimeoutMs), fmt.Sprintf("pipeline-%d", len(c.Reqs)))
 	return nt, dedup(cls)
